@@ -24,7 +24,10 @@ EXPLANATION = (
 )
 TRUSTED = ["G1: laws of *, %, pow in Z_p^* in exponent form; Z_p^* cyclic", "K1-K5 kernel contracts (C12) for Ed25519",
            "E(F_Q) = Z_L x Z_8"]
-ASSUMPTIONS = ["expression depth <= 3 operations for 'results of operations'", "scalars unbounded integers"]
+ASSUMPTIONS = ["expression depth <= 3 operations for 'results of operations'", "scalars unbounded integers",
+               "elements entering through bytes_to_element: integer groups I1024, toy11, toy257, sp61 symbolically (accepted => "
+               "reduced member, identity laws on the decoded object); Ed25519 decoded elements are covered by C05 + the "
+               "class-lattice jobs"]
 
 
 def jobs(tier):
